@@ -1,5 +1,6 @@
 import NeumannModel.Blob.ConcSafe
 import NeumannModel.Blob.ReaderLemmas
+import NeumannModel.Blob.WritersLemmas
 /-
   C19 — property theorems for the blob store.  ONLY property statements and their
   non-vacuity examples live here; helpers are in `Lemmas.lean` / `Invariant.lean`.
@@ -428,6 +429,64 @@ theorem reader_eof_means_all_delivered (hi : HashInj h) (cfg : Cfg) (ops₀ : Li
     have := rRead_eof hne e5 hpos heof
     simpa using this
 
+/-! ### open streaming writers: sequential histories with writers that stay open across deletes and gc cycles -/
+
+/-- In every state reachable by a sequential history with open writers (any operations, writers opened / written /
+    finished / dropped in any order and left open across anything; `full_gc` / `repair` only while no writer is
+    open — the known findings), a chunk's refcount covers its listings by finished artifacts PLUS one reference per
+    occurrence in every open writer's chunk list: the reference is taken when the chunk is written. -/
+theorem refs_cover_open_writers (hi : HashInj h) (cfg : Cfg) (ops : List WOp)
+    (hq : collectorsQuiet h cfg WState.init ops = true) (k : K) :
+    occ k (runW h cfg WState.init ops).st.arts + holds k (runW h cfg WState.init ops).writers
+      ≤ refsOf k (runW h cfg WState.init ops).st.chunks :=
+  (WFW_reach h hi cfg ops hq).refsW k
+
+/-- A chunk an open writer has written is never removed by `gc_cycle` (any age threshold, any batch), whatever
+    was deleted meanwhile: after ANY such history, for every open writer, every key of its list survives the
+    cycle and the list still reads back as the bytes the writer has stored so far. -/
+theorem open_writer_chunks_survive_gc (hi : HashInj h) (cfg : Cfg) (ops : List WOp)
+    (hq : collectorsQuiet h cfg WState.init ops = true) (w : Nat) (wr : Writer K)
+    (hw : find w (runW h cfg WState.init ops).writers = some wr) (mc : Nat) (sel : K → Bool) :
+    (∀ k ∈ wr.chunks, (find k (gcSel mc sel (runW h cfg WState.init ops).st).1.chunks).isSome) ∧
+    ∃ d, readChunks (gcSel mc sel (runW h cfg WState.init ops).st).1.chunks wr.chunks = .ok d ∧
+      d ++ wr.buffer = writtenTo w ops := by
+  have hx := WFW_reach h hi cfg ops hq
+  have hh := hashed_reach h cfg w ops wr hw
+  have hm := find_some_mem hw
+  generalize runW h cfg WState.init ops = x at *
+  obtain ⟨d, h1, h2, _⟩ := hx.wr (w, wr) hm
+  have hfind : ∀ k ∈ wr.chunks, find k (gcSel mc sel x.st).1.chunks = find k x.st.chunks :=
+    fun k hk => find_gcSel_of_refs hx.base.nodup mc sel (hx.writer_refs_pos h hm hk)
+  refine ⟨fun k hk => ?_, d, ?_, ?_⟩
+  · rw [hfind k hk]
+    exact refsOf_pos_isSome (hx.writer_refs_pos h hm hk)
+  · have hc : readChunks (gcSel mc sel x.st).1.chunks wr.chunks = readChunks x.st.chunks wr.chunks :=
+      readChunks_congr (fun k hk => by unfold dataOf; rw [hfind k hk])
+    rw [hc]; exact h1
+  · rw [← hh]; exact h2
+
+/-- A writer left open across ANY sequential history (deletes of the artifacts it shares chunks with, gc cycles,
+    other writers, ...), then finished, then ANY further history that does not delete the new artifact:
+    `get` returns exactly the bytes handed to the writer. -/
+theorem finished_artifact_readable_after_any_sequential_history (hi : HashInj h) (cfg : Cfg)
+    (ops₁ ops₂ : List WOp) (w t : Nat) (wr : Writer K)
+    (hq : collectorsQuiet h cfg WState.init (ops₁ ++ .wfinish w t :: ops₂) = true)
+    (hw : find w (runW h cfg WState.init ops₁).writers = some wr)
+    (hnd : ∀ op ∈ ops₂, op ≠ .base (.delete (runW h cfg WState.init ops₁).st.next)) :
+    get (runW h cfg WState.init (ops₁ ++ .wfinish w t :: ops₂)).st (runW h cfg WState.init ops₁).st.next
+      = .ok (writtenTo w ops₁) := by
+  obtain ⟨hq1, hq2⟩ := (collectorsQuiet_append h cfg WState.init ops₁ _).mp hq
+  obtain ⟨_, hq3⟩ := (collectorsQuiet_cons h cfg _ _ ops₂).mp hq2
+  have hx := WFW_reach h hi cfg ops₁ hq1
+  have hh := hashed_reach h cfg w ops₁ wr hw
+  rw [runW_append, runW_cons]
+  generalize runW h cfg WState.init ops₁ = x at *
+  have hstep : applyW h cfg x (.wfinish w t) = ⟨(wFinish h t x.st wr).1, erase w x.writers⟩ := by
+    simp only [applyW, hw]
+  rw [hstep] at hq3 ⊢
+  obtain ⟨h1, _, h3, h4⟩ := wfinish_step h hi hx hw t
+  rw [(runW_step h hi cfg ops₂ h1 hq3).2 x.st.next h3 hnd, h4, hh]
+
 end
 
 /-! ### witnesses and non-vacuity (keys = chunk bytes, `h = id`, as in the driver) -/
@@ -655,5 +714,84 @@ example : (find [1, 2] (run hid cfg2 State.init [.put 0 [1, 2, 3], .delete 0]).c
     find [1, 2] (gcSel 5 (fun _ => true) (run hid cfg2 State.init [.put 0 [1, 2, 3], .delete 0])).1.chunks = none := by decide
 example : find 0 (run hid cfg2 State.init [.put 0 [1, 2, 3]]).arts = some ⟨[[1, 2], [3]], 3, [1, 2, 3]⟩ := by decide
 example : (fullGc (deleteAll (run hid cfg2 State.init [.put 0 [1, 2, 3], .abandon 0 [[7, 7, 7]], .put 0 [1, 2]]))).1.chunks = [] := by decide
+
+/-! ### open streaming writers: the deferred-increment variant, and non-vacuity of the open-writer theorems -/
+
+/-- The deferred-increment variant (`storeChunkDeferredRefs`: an already existing chunk is only remembered and its
+    reference taken in `finish()`) is NOT safe on the history of seeded change C19_2: artifact a0 = [1,2,3,4,5]
+    (chunks [1,2] [3,4] [5]); a writer stores [1,2] [3,4] (both deduplicated) and stays open; a0 is deleted; a
+    `gc_cycle` runs; the writer writes [5] and finishes successfully; the new artifact lists chunks that are
+    gone. The current code (`wWrite`/`wFinish`, reference taken at write time) reads the same history back. -/
+theorem deferred_refs_writer_loses_chunk_witness :
+    let s0 := (put hid cfg2 1 State.init [1, 2, 3, 4, 5]).1
+    -- the variant
+    let v1 := wWriteDeferredRefs hid 2 2 s0 DWriter.new [1, 2, 3, 4]
+    let v2 := (gcSel 100 (fun _ => true) (delete v1.1 0).1).1
+    let v3 := wWriteDeferredRefs hid 2 5 v2 v1.2 [5]
+    let v4 := wFinishDeferredRefs hid 6 v3.1 v3.2
+    -- the current code
+    let c1 := wWrite hid 2 2 s0 Writer.new [1, 2, 3, 4]
+    let c2 := (gcSel 100 (fun _ => true) (delete c1.1 0).1).1
+    let c3 := wWrite hid 2 5 c2 c1.2 [5]
+    let c4 := wFinish hid 6 c3.1 c3.2
+    refsOf [1, 2] v1.1.chunks = 1 ∧ refsOf [1, 2] c1.1.chunks = 2 ∧
+    find [1, 2] v2.chunks = none ∧ (find [1, 2] c2.chunks).isSome = true ∧
+    get v4.1 v4.2 = .error .chunkMissing ∧ verify hid v4.1 v4.2 = .error .chunkMissing ∧
+    checkChunksExist v4.1 v4.2 = .ok [[1, 2], [3, 4]] ∧
+    get c4.1 c4.2 = .ok [1, 2, 3, 4, 5] ∧ verify hid c4.1 c4.2 = .ok true := by decide
+
+/-- control for `deferred_refs_writer_loses_chunk_witness`: the same history WITHOUT the `gc_cycle` — the variant
+    reads back fine and ends in exactly the state of the current code (same records, same refcounts): only a
+    collection that falls between the deduplicated write and `finish()` tells the two apart -/
+example :
+    let s0 := (put hid cfg2 1 State.init [1, 2, 3, 4, 5]).1
+    let v1 := wWriteDeferredRefs hid 2 2 s0 DWriter.new [1, 2, 3, 4]
+    let v3 := wWriteDeferredRefs hid 2 5 (delete v1.1 0).1 v1.2 [5]
+    let v4 := wFinishDeferredRefs hid 6 v3.1 v3.2
+    let c1 := wWrite hid 2 2 s0 Writer.new [1, 2, 3, 4]
+    let c3 := wWrite hid 2 5 (delete c1.1 0).1 c1.2 [5]
+    let c4 := wFinish hid 6 c3.1 c3.2
+    get v4.1 v4.2 = .ok [1, 2, 3, 4, 5] ∧ verify hid v4.1 v4.2 = .ok true ∧ v4 = c4 ∧
+    refsOf [1, 2] v4.1.chunks = 1 ∧ refsOf [3, 4] v4.1.chunks = 1 ∧ refsOf [5] v4.1.chunks = 1 := by decide
+
+/-- the history of the witness as a `WOp` list: a writer open across the delete of the artifact it shares its
+    chunks with and a `gc_cycle` -/
+abbrev opsOpenWriter : List WOp :=
+  [.base (.put 1 [1, 2, 3, 4, 5]), .wopen 0, .wwrite 0 2 [1, 2, 3, 4], .base (.delete 0), .base (.gcAll 100 0),
+   .wwrite 0 5 [5]]
+
+-- the hypotheses of the open-writer theorems hold on it; the writer's references are the only ones left
+example : collectorsQuiet hid cfg2 WState.init opsOpenWriter = true := by decide
+example : find 0 (runW hid cfg2 WState.init opsOpenWriter).writers = some ⟨[[1, 2], [3, 4]], 5, [1, 2, 3, 4, 5], [5]⟩ := by
+  decide
+example : writtenTo 0 opsOpenWriter = [1, 2, 3, 4, 5] := by decide
+example : holds [1, 2] (runW hid cfg2 WState.init opsOpenWriter).writers = 1 ∧
+    refsOf [1, 2] (runW hid cfg2 WState.init opsOpenWriter).st.chunks = 1 ∧
+    occ [1, 2] (runW hid cfg2 WState.init opsOpenWriter).st.arts = 0 := by decide
+-- `refs_cover_open_writers` / `open_writer_chunks_survive_gc` on it (one more gc_cycle over everything)
+example : occ [1, 2] (runW hid cfg2 WState.init opsOpenWriter).st.arts + holds [1, 2] (runW hid cfg2 WState.init opsOpenWriter).writers
+    ≤ refsOf [1, 2] (runW hid cfg2 WState.init opsOpenWriter).st.chunks :=
+  refs_cover_open_writers hid hid_inj cfg2 opsOpenWriter (by decide) [1, 2]
+example : ∃ d, readChunks (gcSel 1000 (fun _ => true) (runW hid cfg2 WState.init opsOpenWriter).st).1.chunks [[1, 2], [3, 4]] = .ok d ∧
+    d ++ [5] = writtenTo 0 opsOpenWriter :=
+  (open_writer_chunks_survive_gc hid hid_inj cfg2 opsOpenWriter (by decide) 0 ⟨[[1, 2], [3, 4]], 5, [1, 2, 3, 4, 5], [5]⟩
+    (by decide) 1000 (fun _ => true)).2
+-- finish, then another gc_cycle, a full_gc and a repair (no writer is open any more): the artifact reads back
+example : get (runW hid cfg2 WState.init
+      (opsOpenWriter ++ .wfinish 0 6 :: [.base (.gcAll 200 0), .base .fullGc, .base .repair])).st
+    (runW hid cfg2 WState.init opsOpenWriter).st.next = .ok (writtenTo 0 opsOpenWriter) :=
+  finished_artifact_readable_after_any_sequential_history hid hid_inj cfg2 opsOpenWriter
+    [.base (.gcAll 200 0), .base .fullGc, .base .repair] 0 6 ⟨[[1, 2], [3, 4]], 5, [1, 2, 3, 4, 5], [5]⟩
+    (by decide) (by decide) (by decide)
+example : (runW hid cfg2 WState.init opsOpenWriter).st.next = 1 ∧
+    get (runW hid cfg2 WState.init
+      (opsOpenWriter ++ .wfinish 0 6 :: [.base (.gcAll 200 0), .base .fullGc, .base .repair])).st 1
+      = .ok [1, 2, 3, 4, 5] := by decide
+-- the hypothesis really excludes the known `full_gc` finding (`open_writer_full_gc_witness`): a `full_gc` /
+-- `repair` while a writer is open is not a quiet history; after the writer has finished or been dropped it is
+example : collectorsQuiet hid cfg2 WState.init [.wopen 0, .wwrite 0 0 [1, 2, 3], .base .fullGc] = false := by decide
+example : collectorsQuiet hid cfg2 WState.init [.wopen 0, .wwrite 0 0 [1, 2, 3], .base .repair] = false := by decide
+example : collectorsQuiet hid cfg2 WState.init
+    [.wopen 0, .wwrite 0 0 [1, 2, 3], .wfinish 0 0, .base .fullGc, .wopen 1, .wdrop 1, .base .repair] = true := by decide
 
 end Neumann.Blob.Props
